@@ -441,11 +441,12 @@ Section MergeSeq.
 End MergeSeq.
 
 (* merge: field by field; names, widths, gates, nullability and offset widths must agree; the count
-   comes from the read side, the compute from the write side *)
+   comes from the read side, the compute from the write side.  A literal / computed scalar has no name in
+   the text of `write_into` (the extractor gives it the name ""): it takes the reader's name. *)
 Fixpoint merge_field (r w : field) {struct r} : option field :=
   match r, w with
   | FScalar n wd g _, FScalar n' wd' g' c' =>
-      if String.eqb n n' && Nat.eqb wd wd' && gate_eqb g g' then Some (FScalar n wd g c') else None
+      if (String.eqb n n' || String.eqb n' "") && Nat.eqb wd wd' && gate_eqb g g' then Some (FScalar n wd g c') else None
   | FArray n g cnt elem, FArray n' g' _ elem' =>
       if String.eqb n n' && gate_eqb g g'
       then do e <- merge_seq merge_field elem elem' ;; Some (FArray n g cnt e) else None
